@@ -170,16 +170,33 @@ func urlPrefixClass(sc sanitizationContext, prefix string) string {
 // unfinishedCharRef returns the incomplete HTML character reference that s ends with, if any.
 func unfinishedCharRef(s string) string {
 	if loc := endsWithCharRefPrefixPattern.FindStringIndex(s); loc != nil {
+		if len(s)-loc[0] > maxUnfinishedCharRefLen {
+			return overlongUnfinishedCharRef
+		}
 		return "(" + s[loc[0]:] + ")"
 	}
 	return ""
 }
 
+// maxUnfinishedCharRefLen bounds the length of the incomplete character references that
+// become part of the names of the copies of called templates. No named character reference
+// is longer.
+const maxUnfinishedCharRefLen = 40
+
+const overlongUnfinishedCharRef = "UnfinishedCharRefTooLong"
+
 // validateTemplateCallContext returns an error if a template is called inside a URL attribute
 // value after static text that is too long to tell the copies of the called template apart.
 func validateTemplateCallContext(c context) error {
-	if c.state == stateAttr && strings.HasSuffix(strings.TrimSuffix(attributeValueClass(c), "AfterAction"), overlongUnfinishedURLPrefix) {
+	if c.state != stateAttr {
+		return nil
+	}
+	class := attributeValueClass(c)
+	if strings.HasSuffix(strings.TrimSuffix(class, "AfterAction"), overlongUnfinishedURLPrefix) {
 		return fmt.Errorf("the %q attribute value of this %q element starts with more than %d bytes that do not yet make up a valid URL prefix", c.attr.name, c.element.name, maxUnfinishedURLPrefixLen)
+	}
+	if strings.HasSuffix(class, overlongUnfinishedCharRef) {
+		return fmt.Errorf("the %q attribute value of this %q element ends with more than %d bytes of an incomplete character reference", c.attr.name, c.element.name, maxUnfinishedCharRefLen)
 	}
 	return nil
 }
